@@ -30,6 +30,14 @@ Peer(x) == IF x = "A" THEN "B" ELSE "A"
 Kinds == <<"req", "resp", "ack">>
 Ops == {"none", "drop", "corrupt", "truncate", "dup", "swap", "replayold", "reflect", "splice"}
 Secrets == {"", "s", "t"}
+(* The configuration space also holds what an operator can write and the handshake code never asked for:      *)
+(*  - a router WITHOUT a universe name (the default universe, uni = "") - with or without a universe secret;  *)
+(*    the property puts no condition on the name: a router that has a secret registers no link without proof.  *)
+(*  - secrets that differ from "s" only in surrounding white space or in case: other secrets.                  *)
+(* A response carries a universe proof only inside a named universe (handlePeeringRequest); in the nameless     *)
+(* universe nobody proves anything, so a router with a secret completes with nobody there.                     *)
+Variants == {" s", "s ", "S"}
+AllSecrets == Secrets \cup Variants
 
 VARIABLES cfg,    \* [uniA, uniB, secA, secB]
           plan,   \* [op, dir (sender of the direction), idx (1..3), forgot]
@@ -45,13 +53,15 @@ vars == <<cfg, plan, step, nsent, q, passed, stale, act>>
 (* msg: [from, kind, good]  good = intact, current connection, produced by `from` *)
 Msg(x, k) == [from |-> x, kind |-> k, good |-> TRUE, why |-> "genuine"]
 
-Init == /\ cfg \in [uniA : {"u"}, uniB : {"u", "v", "U"}, secA : Secrets, secB : Secrets]
+Init == /\ cfg \in [uniA : {"u", ""}, uniB : {"u", "v", "U", ""}, secA : AllSecrets, secB : AllSecrets]
+        /\ ((cfg.secA \in Variants \/ cfg.secB \in Variants)      \* the near-miss secrets: named universe, against "s", each other, none
+               => cfg.uniA = "u" /\ cfg.uniB = "u" /\ cfg.secA # "t" /\ cfg.secB # "t")
         /\ plan \in [op : Ops, dir : Ends, idx : 1..3, forgot : BOOLEAN]
         /\ (plan.op = "none" => plan.dir = "A" /\ plan.idx = 1 /\ ~plan.forgot)
         /\ (plan.op # "replayold" => ~plan.forgot)
         /\ (plan.op = "swap" => plan.idx < 3)
         /\ (cfg.uniB # "u" => plan.op = "none")               \* configuration faults are explored without wire faults
-        /\ (plan.op # "none" => cfg.secA = cfg.secB /\ cfg.secA # "t")
+        /\ (plan.op # "none" => cfg.secA = cfg.secB /\ cfg.secA \in {"", "s"} /\ cfg.uniA = "u")
         /\ step = [x \in Ends |-> 1]
         /\ nsent = [x \in Ends |-> 0]
         /\ q = [x \in Ends |-> <<>>]
@@ -92,7 +102,7 @@ Sec(x) == IF x = "A" THEN cfg.secA ELSE cfg.secB
 (* the checks of the receiving router y on an otherwise good message of the expected kind *)
 ConfigOK(y, k) ==
   CASE k = "req" -> Uni(y) = Uni(Peer(y))                                   \* same universe
-    [] k = "resp" -> (Sec(y) # "" => Sec(Peer(y)) = Sec(y))                 \* peer proved knowledge of MY secret
+    [] k = "resp" -> (Sec(y) # "" => Sec(Peer(y)) = Sec(y) /\ Uni(Peer(y)) # "")   \* peer proved knowledge of MY secret (no proof is made in the nameless universe)
     [] k = "ack" -> TRUE
 
 Abort(y) == [x \in Ends |-> IF x = y THEN 0 ELSE IF step[x] = 4 THEN 4 ELSE 0]
@@ -138,7 +148,9 @@ AuthOnRegister == \A x \in Ends : step[x] = 4 =>
 AbortOnFault == \* the receiver of the faulty message never registers (a duplicate of the LAST message arrives after
                 \* the genuine copy completed the handshake: it is post-handshake garbage, C05's business)
   Final /\ plan.op # "none" /\ ~(plan.op = "dup" /\ plan.idx = 3) => step[Peer(plan.dir)] # 4
+(* completion is demanded where the code can deliver it: in the nameless universe only without secrets (the property demands none at all) *)
 CleanCompletes == Final /\ plan.op = "none" /\ Uni("A") = Uni("B") /\ (Sec("A") = "" \/ Sec("B") = Sec("A")) /\ (Sec("B") = "" \/ Sec("A") = Sec("B"))
+                    /\ (Uni("A") = "" => Sec("A") = "" /\ Sec("B") = "")
                     => step["A"] = 4 /\ step["B"] = 4
 
 DumpFinal == Final => PrintT("OUT " \o ToJson([cfg |-> cfg, plan |-> plan, regA |-> step["A"] = 4, regB |-> step["B"] = 4]))
